@@ -15,7 +15,7 @@
 
     This is a theorem about the model only: the Go memory model, the scheduler and the tie
     between Go code and declared footprints are outside (bin/props.d/C20.json). *)
-From Coq Require Import ZArith List Arith Bool Lia.
+From Coq Require Import ZArith List Arith Bool Lia Sorting.Permutation.
 Import ListNotations.
 
 Definition loc := nat.
@@ -254,6 +254,33 @@ Proof.
       * rewrite !(ok_frame b Okj) by exact Wb. rewrite (ok_frame a Oki) by exact Wa. reflexivity.
 Qed.
 
+
+(** ** the outcome does not depend on the interleaving: two schedules that give every operation
+    the same number of turns (e.g. any permutation of a schedule) end in the same local states and
+    in heaps that agree on every operation's footprint and on every location nobody writes *)
+Theorem schedule_independence : all_ok -> writes_disjoint -> forall h0 s1 s2,
+  (forall i, count_occ Nat.eq_dec s1 i = count_occ Nat.eq_dec s2 i) ->
+  (forall i, locals (run h0 s1) i = locals (run h0 s2) i) /\
+  (forall i l, In l (op_footprint i) -> hp (run h0 s1) l = hp (run h0 s2) l) /\
+  (forall l, (forall i, ~ In l (o_writes (ops i))) -> hp (run h0 s1) l = hp (run h0 s2) l).
+Proof.
+  intros Hok Hd h0 s1 s2 E.
+  destruct (readonly_interleave Hok Hd h0 s1) as [A1 [B1 C1]].
+  destruct (readonly_interleave Hok Hd h0 s2) as [A2 [B2 C2]].
+  split; [|split].
+  - intros i. rewrite A1, A2, E. reflexivity.
+  - intros i l Hl. rewrite (B1 i l Hl), (B2 i l Hl), E. reflexivity.
+  - intros l Hl. rewrite (C1 l Hl), (C2 l Hl). reflexivity.
+Qed.
+
+Corollary permuted_schedule : all_ok -> writes_disjoint -> forall h0 s1 s2, Permutation s1 s2 ->
+  forall i, locals (run h0 s1) i = locals (run h0 s2) i.
+Proof.
+  intros Hok Hd h0 s1 s2 P.
+  apply (schedule_independence Hok Hd h0 s1 s2).
+  intros i. now apply Permutation_count_occ.
+Qed.
+
 (** ** ownership discipline: the shape the C20 obligations establish for the code.
     [owner l = None]: shared state (the compiled module, package-level variables);
     [owner l = Some i]: private to operation [i] (objects it allocated: per-request selections,
@@ -286,3 +313,46 @@ Proof.
 Qed.
 
 End Interleave.
+
+(** ** finitely many operations given as a list: the family that is idle beyond the list *)
+Section ListOfOps.
+Variable L : Type.
+
+Definition idle (d : L) : op L := mkOp L [] [] d (fun _ => None).
+Definition ops_of_list (d : L) (l : list (op L)) : nat -> op L := fun i => nth i l (idle d).
+
+Lemma idle_ok d : op_ok L (idle d).
+Proof. intros st s E. discriminate E. Qed.
+
+Definition list_disjoint (l : list (op L)) : Prop :=
+  forall i j oi oj x, i <> j -> nth_error l i = Some oi -> nth_error l j = Some oj ->
+  In x (o_writes L oi) -> ~ In x (o_reads L oj ++ o_writes L oj).
+
+Lemma nth_idle_or_elem d (l : list (op L)) i :
+  (nth_error l i = Some (nth i l (idle d))) \/ (nth i l (idle d) = idle d).
+Proof.
+  destruct (Nat.lt_ge_cases i (length l)) as [H|H].
+  - left. now apply nth_error_nth'.
+  - right. now apply nth_overflow.
+Qed.
+
+Theorem readonly_interleave_list : forall (d : L) (l : list (op L)),
+  Forall (op_ok L) l -> list_disjoint l -> forall h0 sched i o,
+  nth_error l i = Some o ->
+  locals L (run L (ops_of_list d l) h0 sched) i =
+  fst (run_alone L o h0 (count_occ Nat.eq_dec sched i)).
+Proof.
+  intros d l Hok Hd h0 sched i o Hi.
+  assert (A : all_ok L (ops_of_list d l)).
+  { intros k. unfold ops_of_list. destruct (nth_idle_or_elem d l k) as [E|E].
+    - rewrite Forall_forall in Hok. apply Hok. eapply nth_error_In; eauto.
+    - rewrite E. apply idle_ok. }
+  assert (D : writes_disjoint L (ops_of_list d l)).
+  { intros a b x N W F. unfold op_footprint, ops_of_list in *.
+    destruct (nth_idle_or_elem d l a) as [Ea|Ea]; [|rewrite Ea in W; destruct W].
+    destruct (nth_idle_or_elem d l b) as [Eb|Eb]; [|rewrite Eb in F; destruct F].
+    exact (Hd a b _ _ x N Ea Eb W F). }
+  destruct (readonly_interleave L (ops_of_list d l) A D h0 sched) as [R _].
+  rewrite (R i). unfold ops_of_list. now rewrite (nth_error_nth l i (idle d) Hi).
+Qed.
+End ListOfOps.
